@@ -2,6 +2,7 @@ import VtProofs.VplTyped
 import VtProofs.VplTotal
 import VtProofs.VplDepth
 import VtProofs.VplProps
+import VtProofs.VplCanon
 /-!
 # C18 — every well-formed pipeline text parses to the pipeline it describes
 
@@ -44,6 +45,21 @@ theorem too_deep_rejected (s : Str) (h : maxNesting < bracketDepth s) : parseVpl
 theorem parse_render_prefix (d f : Nat) (c : CPipe d) (h : WF d c) (hf : depthOf d c + 2 ≤ f) (tail : Str)
     (ht : StopP tail) : parsePipeline f (render d c ++ tail) = .ok tail (treeOf d c) :=
   pipe_fam_ge d f c h hf tail ht
+
+/-! ## the same over plain syntax trees and layout policies -/
+
+/-- **every syntax tree can be written**: for every well-formed syntax tree `t` (names/keys identifiers, no
+    empty pipeline; parameters in text order, keys may repeat), every layout policy `L` and every level `d`
+    bounding its nesting there is a written pipeline whose tree is `t` in normal form — the family
+    `CPipe d` the main theorem quantifies over misses no syntax tree -/
+theorem every_tree_can_be_written (L : Layout) (d : Nat) (t : List Node) (ht : AstWF t) (hd : depthNodes t ≤ d) :
+    ∃ c, canonPipe L d t = some c ∧ WF d c ∧ treeOf d c = normNodes t := canonPipe_ok L d t ht hd
+
+/-- **C18 (positive part) over plain syntax trees**: the text of every well-formed syntax tree under every
+    layout policy parses to the pipeline the tree describes (guard hypothesis on the text as in `parse_render`) -/
+theorem parse_syntax_tree (L : Layout) (t : List Node) (ht : AstWF t)
+    (hg : bracketDepth (renderAst L t) ≤ maxNesting) : parseVpl (renderAst L t) = .ok (normNodes t) :=
+  parse_ast L t ht hg
 
 /-! ## the nesting limit (fix be686a0f) in terms of the tree -/
 
@@ -316,6 +332,16 @@ example : WF 1 exPipe := by
 example : treeOf 1 exPipe =
     [Node.mk "a".toList [("k".toList, ["x y".toList, "1".toList, "\"".toList])]
       [[.mk "b".toList [] [], .mk "c".toList [] []], [.mk "d".toList [] []]]] := by rfl
+
+/-- a syntax tree under a layout policy (single spaces, bare where possible), and its text -/
+def exLayout : Layout :=
+  { pre := [], post := [], sep := ⟨.sp, []⟩, wa := [], wb := [], l0 := [], la := [], lb := [.sp], l1 := [],
+    wS := [.sp], wEmpty := [], quoteAll := false, bracketSingle := false, emptyBrackets := false,
+    escNl := true, escTab := true }
+def exAst : List Node :=
+  [.mk "a".toList [("k".toList, ["x y".toList]), ("n".toList, ["1".toList, "2".toList])] [[.mk "b".toList [] []]],
+   .mk "c".toList [] []]
+example : renderAst exLayout exAst = "a k=\"x y\" n=[1, 2] [b ]|c ".toList := by decide
 
 /-! ## concrete verdicts evaluated by the kernel (small texts; larger ones run in the compiled driver) -/
 
